@@ -54,8 +54,15 @@ def scalar_api_replay(chk, op, nargs, spec, key):
     specials = msx + [0, 1, 2, L - 1, L - 2, (L - 1) // 2, 2**252, 2**128, 2**64 - 1, 2**255 % L] + [ss[(i * 53) % len(ss)] for i in range(20)] + [ss[(i * 31 + 7) % len(ss)] * Rinv_ % L for i in range(40)]
     ops, meta = [], []
     names = ["a", "b", "c"][:nargs]
-    for t in range(200):
+    pairs = ptreplay.montgomery_pairs(400) if nargs >= 2 else []
+    for t in range(200 + len(pairs)):
         vals = {n: (rng.choice(specials) if rng.random() < 0.6 else rng.randrange(L)) for n in names}
+        if t >= 200:
+            # raw Montgomery limb values (A, B) with a structured pre-subtraction product: the encoded scalars are A/R, B/R
+            A_, B_ = pairs[t - 200]
+            vals[names[0]], vals[names[1]] = A_ * Rinv_ % L, B_ * Rinv_ % L
+            if nargs == 3:
+                vals[names[2]] = 0 if t % 2 else vals[names[2]]
         # aliasing patterns: receiver distinct / aliased to each arg / args aliased
         pats = [["s"] + names]
         for n in names:
